@@ -11,6 +11,8 @@
         decl    := 1 trivs spec | g trivs <n> (trivs spec)^n trivs
         spec    := (n | d | i <hex>) trivs (r <hex> | q <n> ((p|e) <hex1>)^n)
      uq <literal>             -> ok <hex> | err                                        (unquote)
+     ts <bytes>               -> <hex>                                                 (trim_space = bytes.TrimSpace)
+     fl <bytes>               -> <n> <hex>*                                            (fields = strings.Fields)
      sd|sf <ntags> <tag>* <nfiles> (<name> <regular 0|1> <data>)*
                               -> S ok <n> <import>* <m> <testimport>* | S nogo | S readerr | PANIC   (scan_dir | scan_files) *)
 exception Bad
@@ -74,6 +76,9 @@ let () = serve (function
   | "mt" :: o :: tags -> string_of_bool (match_tags (bytes_of_hex o) (tagset tags))
   | ["ri"; r; x] -> show_result (read_imports (r = "1") (bytes_of_hex x))
   | ["rc"; x] -> show_result (read_comments (bytes_of_hex x))
+  | ["ts"; x] -> hex_of_bytes (trim_space (bytes_of_hex x))
+  | ["fl"; x] -> let fs = fields (bytes_of_hex x) in
+      String.concat " " (string_of_int (List.length fs) :: List.map hex_of_bytes fs)
   | ["uq"; x] -> (match unquote (bytes_of_hex x) with Some b -> "ok " ^ hex_of_bytes b | None -> "err")
   | ("sd" | "sf" as fn) :: nt :: more ->
       (try
